@@ -404,8 +404,10 @@ def diff_lines(impl, model, fields=None, skip=()):
             continue
         a, b = fi.get(k), fm.get(k)
         if k == "kind" and a != b and a is not None and a in fm.get("kinds", "").split("+"):
-            # two causes hold of the call: the implementation reports another applicable one than the model (the model
-            # proves each listed kind is a cause that holds: Thm_Cause.step_err_is_a_cause / presign_causes)
+            # two causes hold of the call and the implementation reports another applicable one than the model (each
+            # listed kind is a cause that holds: Thm_Cause.step_err_is_a_cause / presign_causes). The correspondence is
+            # broken, but no property is shown to fail: reported with no-failing-input-found (field name "kind~").
+            out.append(("kind~", a, b + " (also applicable: %s)" % fm.get("kinds")))
             continue
         if a != b:
             out.append((k, a, b))
